@@ -30,7 +30,7 @@ func notClaimed() [][2]string {
 func props() []prop {
 	return []prop{
 		{
-			ID: "C18", Level: "simulation_monitoring",
+			ID: "C18", Level: "exploration",
 			LevelText:   "Fixpoint monitor over a deterministic virtual-time simulation that drives 2..7 real NodeActor instances (the production gossip / join / failure-detection code) through a mock ActorContext: simulated network (per-pair FIFO, PRNG cross-pair order, latency, loss, partitions), simulated scheduler timers, messages through the real cluster codec. 1 500 (thorough 60 000) PRNG-generated scenarios over join orders, seed configurations (incl. self-seeded islands), option sweeps and fault phases (crash, restart with same / fresh id before / after removal, graceful Leave, partitions, loss, delay). Bounded-progress restatement: after the last fault + 3 x (timeout + confirm) + 20 intervals of virtual time, for a window of 2 x (timeout + confirm): every running node holds exactly the running nodes (newest incarnation, Up), one common leader, exactly one self-leader, no membership / leader announcements.",
 			LevelNote:   "Unbounded 'eventually' is not decidable by a finite run: the bound above is a logical bound in virtual time. The simulated Tell drops instantly where the real one blocks (D15), multi-DC options are not swept, and the real remoting stack is not in the loop (that is C11/C14/C15).",
 			Technique:   "runtime monitoring of the real NodeActor code under a deterministic fault-injecting simulator (virtual time), fixpoint + event-stream monitor",
@@ -42,7 +42,7 @@ func props() []prop {
 			},
 		},
 		{
-			ID: "C15", Level: "differential_monitoring",
+			ID: "C15", Level: "exploration",
 			LevelText:   "Differential runtime monitor on two real systems connected over loopback TCP: every scenario of the operation matrix (Tell, tell-back, Ask x {reply, none, twice, error, custom, user-codec}, Kill x {system, poison}, Ping, PipeTo / Future.PipeTo x {success, timeout, error} to a local and a remote forwarder, Watch / double Watch / two watchers / Unwatch, scheduler Once / Loop+Cancel) x {ActorContext, ActorSystem} x {no user codec, user codec} is executed with a local and with a remote target; every participant's observation log (contents, senders with address check, OnKill/OnKilled fields, PipeResult, outcomes, final liveness) must be equal role by role.",
 			LevelNote:   "The oracle is the local run of the same scenario (no hand-written expectation), so a behaviour that is equally wrong locally and remotely is not reported here (the local semantics are C03-C09). Real time is used only to wait for quiescence of the logs; timeouts inside scenarios (700 ms Ask) are far above loopback latency, and a difference must reproduce in a second run to be reported.",
 			Technique:   "differential monitoring (local run vs remote run of the same scenario on real systems), observation logs compared offline",
